@@ -143,7 +143,7 @@ def check_expr(ctx, expr):
         ctx.fail(expr, 'structure', err.kind, str(err))
         return
     except Exception as exc:
-        ctx.fail_exc(expr, 'compose-compile-run-raises', exc, tags)
+        ctx.fail_exc(expr, 'compose-compile-run-raises', exc, tags + opgen.copy_scope_tags(expr))
         return
     finally:
         term.clear()
@@ -163,6 +163,7 @@ def campaigns(ctx):
     return [
         Campaign('expr', opgen.expressions(depth=2, max_items=4), check_expr, 700, 6000),
         Campaign('expr-large', opgen.expressions(depth=3, max_items=5), check_expr, 60, 600),
+        Campaign('scoped', opgen.scoped_expressions(), check_expr, 160, 1200),
     ]
 
 
